@@ -23,12 +23,12 @@ CHECKS = {
          "6/C01"),
  "C02": ("exploration",
          "property-based testing with a certificate oracle: the assembler's claimed layout (sizes from output.spans) is re-derived and every instruction re-resolved with the final symbol values by the reference matcher/evaluator",
-         "Random search over cascading instruction sets/programs x iteration budgets x both optimisation switches; every success is checked to be a genuine fixed point (independent of which fixed point was found). Exploration: budgets and programs are sampled (thorough runs all 15 budgets x 4 switch combinations per program).",
+         "Random search over cascading instruction sets/programs x iteration budgets x both optimisation switches; every success is checked to be a genuine fixed point (independent of which fixed point was found); half of the cases also carry a macro rule `blkq => asm {...}` over the cascading set, certified by enumerating the size assignments of the block's instructions against the hand-inlined program. Exploration: budgets and programs are sampled (thorough runs all 15 budgets x 4 switch combinations per program).",
          "Span order = item order (checked); the reference matcher/evaluator as in C01.",
          "6/C02"),
  "C10": ("exploration",
          "metamorphic property testing over repetitions: the same job run on different threads, after random histories of other jobs, and in fresh processes of the real binary must give byte-identical records",
-         "Repetition of sampled jobs (generated programs with many sibling symbols/rules, corpus, mutants, command lines with several invalid parameters) under varying hash seeds, threads and histories; the full record (success, printed diagnostics, every written file, and for the binary stdout/stderr/exit status) must be identical. Sampling of seeds and histories: a leak needing one particular seed can be missed.",
+         "Repetition of sampled jobs (generated programs with many sibling symbols/rules, multi-file 'twins' programs whose files share one byte layout, corpus, mutants, command lines with several invalid parameters) under varying hash seeds, threads and histories; the full record (success, printed diagnostics, every written file, and for the binary stdout/stderr/exit status) must be identical. Sampling of seeds and histories: a leak needing one particular seed can be missed.",
          "Rust's per-map, per-thread, per-process HashMap seeding provides the schedule variation; nothing is trusted beyond the code itself.",
          "6/C10"),
  "C11": ("exploration",
@@ -43,7 +43,7 @@ CHECKS = {
          "6/C06"),
  "C07": ("exploration",
          "metamorphic property testing: one structured program rendered as a base text and six variants (re-casing, extra blanks/tabs, comments, rule permutation/re-partitioning, label renaming, all together) that must assemble identically",
-         "Differential run of the real code against itself over generated size-static instruction sets/programs including literal-versus-expression overlaps; the reference matcher is used only to decide which operands may be re-cased. Exploration.",
+         "Differential run of the real code against itself over generated size-static instruction sets/programs including literal-versus-expression overlaps and rules with literal letters glued behind a parameter; the reference matcher is used only to decide which operands may be re-cased. Exploration.",
          "Blanks are only added, never removed, and never inside a word (documented behaviour / listed finding of C08).",
          "6/C07"),
  "C12": ("exploration",
